@@ -78,12 +78,20 @@ def run_history(h):
     tasks, tid_of = {}, {}
     graphs = {}
     for t in h["tasks"]:
+        rel = {}
+        if h.get("mode") == "sim":
+            rel = {"release_time": us(t["release"])}
         tk = Task(name="T%d" % t["tid"], task_graph="G%d" % t["graph"], job=Job(name="J%d" % t["tid"], profile=profiles[t["mid"]]),
-                  deadline=us(t["deadline"]), profile=profiles[t["mid"]], timestamp=0, _logger=LG)
+                  deadline=us(t["deadline"]), profile=profiles[t["mid"]], timestamp=t["tid"], _logger=LG, **rel)
         tasks[t["tid"]] = tk
         tid_of[tk.id] = t["tid"]
         graphs.setdefault("G%d" % t["graph"], {})[tk] = []
-    workload = Workload.from_task_graphs({g: TaskGraph(name=g, tasks=ts) for g, ts in graphs.items()})
+    if h.get("mode") == "sim":
+        from workload import JobGraph
+        workload = Workload.from_task_graphs({g: TaskGraph(name=g, tasks=ts, job_graph=JobGraph(name="J" + g))
+                                              for g, ts in graphs.items()})
+    else:
+        workload = Workload.from_task_graphs({g: TaskGraph(name=g, tasks=ts) for g, ts in graphs.items()})
     offered_log = []
     orig_gst = workload.get_schedulable_tasks
 
@@ -179,6 +187,9 @@ def run_history(h):
 
     world_strats = {p["mid"]: p["strategies"] for p in h["world"]}
     steps = []
+    if h.get("mode") == "sim":
+        return run_sim(h, profiles, tasks, tid_of, worker_pools, workload, sched, view, getters, canon, offered_log, strat_of,
+                       mid_of_profile)
     for step in h["script"]:
         now = us(step["now"])
         for tid in step.get("release", []):
@@ -250,6 +261,80 @@ def run_history(h):
             qs.append([strat_of[(mid, id(es))], [tid_of[r.task.id] for r in q]])
         final.append([mid, qs, [[tid_of[t.id], r.num_strategies] for t, r in m._tasks.items()]])
     return {"steps": steps, "final": final}
+
+
+class _Enough(Exception):
+    pass
+
+
+def run_sim(h, profiles, tasks, tid_of, worker_pools, workload, sched, view, getters, canon, offered_log, strat_of, mid_of_profile):
+    """The REAL Simulator drives the scheduler: every schedule() call it makes is recorded (what was offered, the
+    cluster as seen, the decisions), up to `max_inv` calls."""
+    from data import BaseWorkloadLoader
+    from simulator import Simulator
+
+    class OneShot(BaseWorkloadLoader):
+        def __init__(self, wl):
+            self.wl = wl
+
+        def get_next_workload(self, current_time):
+            wl, self.wl = self.wl, None
+            return wl
+
+    steps = []
+    state = {"in": False}
+    orig_schedule = sched.schedule
+    # the Simulator also asks the workload for schedulable tasks on its own: only the calls made by schedule() count
+    inner = workload.get_schedulable_tasks
+
+    def gst(*a, **k):
+        r = inner(*a, **k)
+        if not state["in"]:
+            offered_log.pop()
+        return r
+    workload.get_schedulable_tasks = gst
+
+    def schedule(sim_time, workload, worker_pools):
+        rec = {"now": sim_time.to(EventTime.Unit.US).time, "view": view(worker_pools), "load_view": None}
+        before = getters()
+        n_off = len(offered_log)
+        state["in"] = True
+        try:
+            res = orig_schedule(sim_time=sim_time, workload=workload, worker_pools=worker_pools)
+            rec["result"] = [0, canon(res)]
+            rec["starts"] = [[tid_of[p.task.id], p.placement_time.to(EventTime.Unit.US).time,
+                              p.task.release_time.to(EventTime.Unit.US).time] for p in res if p.placement_type == PT.PLACE_TASK]
+        except (ValueError, RuntimeError, IndexError, KeyError, AttributeError) as e:
+            rec["result"] = [1, ERR[type(e).__name__]]
+            rec["error_text"] = "%s: %s" % (type(e).__name__, str(e)[:200])
+            res = None
+        finally:
+            state["in"] = False
+        rec["offered"] = offered_log[n_off] if len(offered_log) > n_off else []
+        after = getters()
+        rec["unchanged"] = before == after
+        rec["getters"] = [before, after]
+        rec["task_states"] = {str(tid): t.state.value for tid, t in tasks.items()}
+        steps.append(rec)
+        if res is None or len(steps) >= h.get("max_inv", 30):
+            raise _Enough()
+        return res
+    sched.schedule = schedule
+    sim = Simulator(worker_pools=worker_pools, scheduler=sched, workload_loader=OneShot(workload),
+                    loop_timeout=us(h.get("loop_timeout", 150)), scheduler_frequency=us(h.get("frequency", 5)))
+    ended = "end"
+    try:
+        sim.simulate()
+    except _Enough:
+        ended = "cut"
+    final = []
+    if ended == "end" or True:
+        for m in sched._models:
+            mid = mid_of_profile[m.profile.id]
+            qs = [[strat_of[(mid, id(es))], [tid_of[r.task.id] for r in q]] for es, q in m._request_queues.items()]
+            final.append([mid, qs, [[tid_of[t.id], r.num_strategies] for t, r in m._tasks.items()]])
+    return {"steps": steps, "final": final, "ended": ended,
+            "end_states": {str(tid): t.state.value for tid, t in tasks.items()}}
 
 
 implutil.end({"histories": [run_history(h) for h in payload["histories"]]})
